@@ -1,20 +1,1 @@
-import Stbem.Props.C01
-import Stbem.Props.C02
-import Stbem.Props.C02Closure
-import Stbem.Props.C03
-import Stbem.Props.C04
-import Stbem.Props.C05
-import Stbem.Props.C06
-import Stbem.Props.C07
-import Stbem.Props.C08
-import Stbem.Props.C09
-import Stbem.Props.C10
-import Stbem.Props.C11
-import Stbem.Props.C12
-import Stbem.Props.C14
-import Stbem.Props.C15
-import Stbem.Props.C16
-import Stbem.Props.C17
-import Stbem.Props.C18
-import Stbem.Props.C19
-import Stbem.Props.C20
+/- Root of the `Stbem` library: every module under `Stbem/` is built through the `globs` entry of the lakefile. -/
